@@ -433,12 +433,36 @@ def check_dims(ctx, chk):
             chk.ob("C09.dims", "State.shape() is the tensor's shape",
                    [cn.show(t) for _, t in s.returns] == [f"{sh.params[0]}.shape"],
                    str([cn.show(t) for _, t in s.returns]), st.module.path, nontrivial=False)
-    slots = []
-    for n in ("_success_idx", "_conn_error_idx", "_perm_error_idx", "_undef_error_idx"):
-        ok, v = ctx.repo.class_const(ob, n)
-        slots.append(v if ok else None)
-    chk.ob("C09.dims", "Observation aux slots fold to 0,1,2,3 (success, connection, permission, "
-           "undefined)", slots == [0, 1, 2, 3], str(slots), ob.module.path)
+    # the auxiliary row: the four public flags are read from, and from_action_result writes them to,
+    # the documented slots 0..3 of row aux_row (whatever the private slot constants are called)
+    FLAGS = ("success", "connection_error", "permission_error", "undefined_error")
+    for k, n in enumerate(FLAGS):
+        m = ob.methods.get(n)
+        if m is None:
+            chk.ob("C09.dims", f"Observation.{n} reads slot {k} of the auxiliary row", False,
+                   "accessor not found", ob.module.path)
+            continue
+        ip = Interp(ctx.repo, ctx.types, param_types={m.params[0]: "Observation"})
+        s = ip.run(m)
+        cn = Canon(ip, ctx.layout, names={("param", m.params[0]): "self"})
+        got = [cn.show(t) for _, t in s.returns]
+        chk.ob("C09.dims", f"Observation.{n} reads slot {k} of the auxiliary row",
+               got == [f"self[#self.aux_row].@{k}"], str(got), f"{ob.module.path}:{m.node.lineno}")
+    m = ob.methods.get("from_action_result")
+    if m is not None:
+        ip = Interp(ctx.repo, ctx.types, param_types={m.params[0]: "Observation"})
+        s = ip.run(m)
+        cn = Canon(ip, ctx.layout, names={("param", m.params[0]): "self",
+                                          ("param", m.params[1]): "result"})
+        st = {}
+        for ev in s.events:
+            if ev.kind == "store" and ev.data["target"] == "sub":
+                st.setdefault((cn.show(ev.data["base"]), cn.show(ev.data["idx"])), []).append(
+                    cn.show(ev.data["value"]))
+        want = {("self[#self.aux_row]", str(k)): [f"result.{n}"] for k, n in enumerate(FLAGS)}
+        chk.ob("C09.dims", "Observation.from_action_result writes success / connection / permission "
+               "/ undefined error into slots 0,1,2,3 of the auxiliary row and nothing else",
+               st == want, str(st), f"{ob.module.path}:{m.node.lineno}")
 
 
 def check_flatten_reshape(ctx, chk):
@@ -494,19 +518,16 @@ def check_flatten_reshape(ctx, chk):
 
 def check_order(ctx, chk):
     from .order import dict_build_order
-    for mod, cls, fn, attrs in (
-            ("nasim.scenarios.loader", "ScenarioLoader", "_construct_host_config",
-             ("os", "services", "processes")),
-            ("nasim.scenarios.generator", "ScenarioGenerator", "_convert_to_os_map", ("os",)),
-            ("nasim.scenarios.generator", "ScenarioGenerator", "_convert_to_service_map",
-             ("services",)),
-            ("nasim.scenarios.generator", "ScenarioGenerator", "_convert_to_process_map",
-             ("processes",))):
-        for res in dict_build_order(ctx, mod, cls, fn, attrs):
+    n = 0
+    for mod, cls in (("nasim.scenarios.loader", "ScenarioLoader"),
+                     ("nasim.scenarios.generator", "ScenarioGenerator")):
+        for res in dict_build_order(ctx, mod, cls, ("os", "services", "processes")):
             if res["ok"] is None:
                 chk.undecided("C09.order", res["construct"], res["detail"], res["loc"])
             else:
+                n += 1
                 chk.ob("C09.order", res["construct"], res["ok"], res["detail"], res["loc"])
+    chk.floor("C09.order", n, 4, "loops that fill a per-host dict from a declared list")
 
 
 def check_order_stable(ctx, chk):
